@@ -8,6 +8,8 @@
    elimination below the pivot), then the forward and back substitutions as the code performs them (Lu_step.v,
    Lu_solve.v); C15_solve_residual: the executable residual test is therefore true; C15_pivot_test: the hypothesis is
    the Boolean pivots_okb, which the correspondence run evaluates on every case (it held on every answered case).
+   C15_det_upper — the determinant of an upper-triangular matrix of any size >= 2 is the product of its diagonal (the
+   value elimination yields), by the code's own expansion along the first column.
    Also: the 2 x 2 determinant closed form; the determinant of larger matrices is the expansion along the first
    column with alternating signs; a matrix with |det| < 1e-12 is refused with the singular-matrix error.
    NOT PROVED: that a non-zero determinant implies non-zero pivots (the link between the cofactor expansion the code
@@ -17,7 +19,7 @@
    the implementation's outputs in exact / bounded arithmetic. *)
 From Coq Require Import QArith.
 Local Close Scope Q_scope.
-From ArrRs Require Import Index Axis Linsolve Linsolve_proofs Lu_sums Lu_step Lu_solve.
+From ArrRs Require Import Index Axis Linsolve Linsolve_proofs Lu_sums Lu_step Lu_solve Det_tri.
 
 Theorem C15_det_2 : forall a b c d, (det [[a; b]; [c; d]] == a * d - b * c)%Q.
 Proof. exact det_2. Qed.
@@ -26,6 +28,12 @@ Theorem C15_det_expand : forall (m : qmat), 3 <= length m ->
   det m = fold_left qadd (map (fun i => qmul (qmul (qget m i 0) (if Nat.even i then 1 else -1)%Q) (det_f (length m - 1) (minor m i 0)))
                                (seq 0 (length m))) 0%Q.
 Proof. exact det_expand. Qed.
+
+Theorem C15_det_upper : forall n (m : qmat), 2 <= n ->
+  (length m = n /\ forall i, i < n -> length (nth i m []) = n) ->
+  (forall i j, j < i -> i < n -> (qget m i j == 0)%Q) ->
+  (det m == fold_left Qmult (map (fun i => qget m i i) (seq 0 n)) 1%Q)%Q.
+Proof. intros n m N Sq U. apply (det_upper n m N). split; assumption. Qed.
 
 Theorem C15_singular : forall a b, qabs_ltb (det a) (1 # 1000000000000) = true -> solve a b = Err ESingular.
 Proof. exact solve_singular. Qed.
